@@ -654,10 +654,10 @@ func ssGenReadOnly(rnd *rand.Rand, closeAll bool, nOps, nCmds int) []ssStep {
 // ---------- mutations (positions are frame-relative, so they survive a different scratch path) ----------
 
 type ssMut struct {
-	Kind  string `json:"kind"`            // none | cut | len | type | strlen | field | garbage | raw
+	Kind  string `json:"kind"`            // none | cut | len | type | strlen | field | garbage | raw | tail
 	Frame int    `json:"frame,omitempty"` // frame index (0 = INIT)
 	Off   int    `json:"off,omitempty"`   // cut: bytes of Frame kept; strlen: offset of the length field inside Frame
-	Val   uint32 `json:"val,omitempty"`   // len/strlen: new field value; type: new type byte
+	Val   uint32 `json:"val,omitempty"`   // len/strlen: new field value; type: new type byte; tail: number of bytes appended INSIDE Frame (its length word follows)
 	Hex   string `json:"hex,omitempty"`   // garbage: appended bytes; raw: bytes inserted before Frame
 	Pipe  bool   `json:"pipe,omitempty"`  // send the whole stream at once (dedicated pipelining cases)
 	// field: the W-byte (4 | 8) integer field at Off of Frame := V64; the rest of the frame is kept.
@@ -733,6 +733,11 @@ func (m ssMut) apply(frames [][]byte) []byte {
 				}
 			case "field":
 				g = m.applyField(g)
+			case "tail":
+				if m.Val <= 1<<16 {
+					g = append(g, ssData(m.Val)...)
+					binary.BigEndian.PutUint32(g, uint32(len(g)-4))
+				}
 			case "raw":
 				out = append(out, raw...)
 			}
